@@ -464,11 +464,12 @@ Ltac bycert name := exists name; split; [assumption|]; split; [assumption|]; spl
 
 Lemma call_facts o e st out st' lg :
   netw_ok e -> call o e st = (out, st', lg) ->
-  (tlsclient st' = tlsclient st \/ (by_cert e st st' lg /\ out = Ret 1))
+  (tlsclient st' = tlsclient st \/ (o = OpFree /\ tlsclient st' = None) \/ (by_cert e st st' lg /\ out = Ret 1))
   /\ (In LL lg -> verified st = false /\ verified st' = true)
   /\ (verified st = true -> verified st' = true)
   /\ match o with
      | OpVerify => (positive out = true -> by_cert e st st' lg) /\ relay st' = relay st
+     | OpFree => out = Ret 0 /\ st' = freedata st /\ lg = []
      | OpIsAuth =>
          (relay st' = 1 -> relay st = 1 \/ (relay st = 0 /\ 0 < e_ipbl e /\ authed e st = false) \/ by_cert e st st' lg)
          /\ (failed out = true -> relay st' <> 1)
@@ -485,7 +486,7 @@ Proof.
     + destruct (authed_false _ _ Fa) as [_ Hn0].
       split.
       { destruct Hc as [[name [Hent [Ho Htc]]]|[Htc _]].
-        - right. split; [|exact Ho]. bycert name.
+        - right. right. split; [|exact Ho]. bycert name.
         - left. rewrite Htc, Hn0. reflexivity. }
       split; [intros _; split; assumption|]. split; [intros _; exact Hv|].
       split; [|exact Hrel].
@@ -500,7 +501,7 @@ Proof.
       split; [intros Hr; left; exact Hr|]. split; [exact Herr|]. intros _. split; [reflexivity|left; reflexivity]. }
     assert (Hstage : forall st0 lg0, ~ In LL lg0 -> verified st0 = verified st -> tlsclient st0 = tlsclient st ->
               ia_tls_stage e st0 lg0 = (out, st', lg) ->
-              (tlsclient st' = tlsclient st \/ (by_cert e st st' lg /\ out = Ret 1))
+              (tlsclient st' = tlsclient st \/ (OpIsAuth = OpFree /\ tlsclient st' = None) \/ (by_cert e st st' lg /\ out = Ret 1))
               /\ (In LL lg -> verified st = false /\ verified st' = true)
               /\ (verified st = true -> verified st' = true)
               /\ (relay st' = 1 -> relay st0 = 1 \/ by_cert e st st' lg)
@@ -513,7 +514,7 @@ Proof.
       { destruct Hc as [[_ Htc]|[[_ [Htc Hf]]|[_ [Ho [Hf [HLL [name [Hent Htc]]]]]]]].
         - left. rewrite Htc. exact Ht0.
         - left. destruct (Hfr0 Hf) as [_ [_ Fa]]. destruct (authed_false _ _ Fa) as [_ Hn0]. rewrite Htc, Hn0. reflexivity.
-        - right. split; [|exact Ho]. destruct (Hfr0 Hf) as [_ [Fv Fa]]. bycert name. }
+        - right. right. split; [|exact Ho]. destruct (Hfr0 Hf) as [_ [Fv Fa]]. bycert name. }
       split.
       { intros HLL. subst lg. apply in_app_or in HLL as [HLL|HLL]; [tauto|].
         destruct Hl1 as [[-> _]|[_ [Hvf Hvt]]]; [destruct HLL|]. rewrite <- Hv0. split; assumption. }
@@ -545,6 +546,9 @@ Proof.
       split; [exact H1|]. split; [exact H2|]. split; [exact H3|].
       split; [intros Hr1; destruct (H4 Hr1) as [Hs0|Hbc]; [left; exact Hs0|right; right; exact Hbc]|].
       split; [exact Herr|]. intros Hp. destruct (H5 Hp) as [Ho Hr1]. split; [exact Ho|right; exact Hr1].
+  - (* freedata *)
+    intros H. injection H as <- <- <-. simpl.
+    split; [right; left; split; reflexivity|]. split; [intros []|]. split; [tauto|]. repeat split.
 Qed.
 
 Theorem relayclient_only_if e st o st' lg :
@@ -597,28 +601,29 @@ Qed.
 Lemma call_log o e st out st' lg :
   call o e st = (out, st', lg) ->
   (In LL lg -> verified st = false /\ verified st' = true) /\
-  (~ In LL lg -> verified st' = verified st /\ tlsclient st' = tlsclient st).
+  (~ In LL lg -> verified st' = verified st /\ (tlsclient st' = tlsclient st \/ tlsclient st' = None)).
 Proof.
   assert (HnLB : forall l1, In LL ([LB] ++ l1) -> In LL l1).
   { intros l1 [Hx|Hx]; [discriminate Hx|exact Hx]. }
   destruct o; simpl.
   - intros H. destruct (tls_verify_log _ _ _ _ _ H) as [[-> ->]|[HLL [Hvf Hvt]]].
-    + split; [intros []|]. intros _. split; reflexivity.
+    + split; [intros []|]. intros _. split; [reflexivity|left; reflexivity].
     + split; [intros _; split; assumption|]. intros Hn. exfalso. exact (Hn HLL).
   - unfold is_authenticated.
     destruct (authed e st).
-    { intros H. injection H as <- <- <-. split; [intros []|]. intros _. split; reflexivity. }
+    { intros H. injection H as <- <- <-. split; [intros []|]. intros _. split; [reflexivity|left; reflexivity]. }
     destruct (Z.eqb (relay st) 0).
     + destruct (Z.ltb (e_ipbl e) 0).
-      * intros H. injection H as <- <- <-. simpl. split; [intros [Hx|[]]; discriminate Hx|]. intros _. split; reflexivity.
+      * intros H. injection H as <- <- <-. simpl. split; [intros [Hx|[]]; discriminate Hx|]. intros _. split; [reflexivity|left; reflexivity].
       * intros H. destruct (ia_tls_stage_log _ _ _ _ _ _ H) as [l1 [-> Hl]]. simpl in Hl.
         destruct Hl as [[-> [Hv Ht]]|[HLL [Hvf Hvt]]].
-        -- split; [intros Hin; apply HnLB in Hin; destruct Hin|]. intros _. split; assumption.
+        -- split; [intros Hin; apply HnLB in Hin; destruct Hin|]. intros _. split; [assumption|left; assumption].
         -- split; [intros _; split; assumption|]. intros Hn. exfalso. apply Hn. apply in_or_app. right. exact HLL.
     + intros H. destruct (ia_tls_stage_log _ _ _ _ _ _ H) as [l1 [-> Hl]]. simpl.
       destruct Hl as [[-> [Hv Ht]]|[HLL [Hvf Hvt]]].
-      * split; [intros []|]. intros _. split; assumption.
+      * split; [intros []|]. intros _. split; [assumption|left; assumption].
       * split; [intros _; split; assumption|]. intros Hn. exfalso. exact (Hn HLL).
+  - intros H. injection H as <- <- <-. simpl. split; [intros []|]. intros _. split; [reflexivity|right; reflexivity].
 Qed.
 
 Lemma run_cons o e cs st :
@@ -627,21 +632,26 @@ Lemma run_cons o e cs st :
 Proof. reflexivity. Qed.
 
 (** once ssl_verified is set - whatever the result of the check was, in particular after a negative one - no later call
-    runs the check, none changes xmitstat.tlsclient: a first "no" is never retried into a "yes" *)
+    runs the check and none gives xmitstat.tlsclient a name it did not have: a first "no" is never retried into a "yes" *)
 Theorem no_retry cs : forall st,
   verified st = true ->
-  Forall (fun res => verified (snd (fst res)) = true /\ tlsclient (snd (fst res)) = tlsclient st /\ ~ In LL (snd res)) (run cs st).
+  Forall (fun res => verified (snd (fst res)) = true /\
+                     (forall n, tlsclient (snd (fst res)) = Some n -> tlsclient st = Some n) /\ ~ In LL (snd res)) (run cs st).
 Proof.
   induction cs as [|[o e] cs IH]; intros st Hv; [constructor|].
   rewrite run_cons. destruct (call o e st) as [[out st'] lg] eqn:Ec. simpl.
   destruct (call_log _ _ _ _ _ _ Ec) as [H1 H2].
   assert (Hnl : ~ In LL lg) by (intros Hin; destruct (H1 Hin) as [Hf _]; congruence).
   destruct (H2 Hnl) as [Hv' Ht'].
-  assert (Hhead : verified st' = true /\ tlsclient st' = tlsclient st /\ ~ In LL lg) by (repeat split; congruence).
+  assert (Hv1 : verified st' = true) by congruence.
+  assert (Hname : forall n, tlsclient st' = Some n -> tlsclient st = Some n).
+  { intros n Hn. destruct Ht' as [Ht'|Ht']; [rewrite <- Ht'; exact Hn|congruence]. }
+  assert (Hhead : verified st' = true /\ (forall n, tlsclient st' = Some n -> tlsclient st = Some n) /\ ~ In LL lg)
+    by (split; [exact Hv1|split; [exact Hname|exact Hnl]]).
   destruct out as [r|en].
   - constructor; [exact Hhead|].
-    assert (Hv1 : verified st' = true) by congruence.
-    specialize (IH st' Hv1). rewrite Ht' in IH. exact IH.
+    specialize (IH st' Hv1). eapply Forall_impl; [|exact IH].
+    intros res [R1 [R2 R3]]. split; [exact R1|]. split; [|exact R3]. intros n Hn. exact (Hname n (R2 n Hn)).
   - constructor; [exact Hhead|constructor].
 Qed.
 
@@ -682,15 +692,17 @@ Proof.
     /\ (relay st' = 1 -> relay st = 1 \/ exists oe, In oe ((o, e) :: cs) /\ fst oe = OpIsAuth /\
                                       (0 < e_ipbl (snd oe) \/ exists name, cert_entitles (snd oe) name))).
   { split.
-    - intros name Ht. destruct F1 as [Heq|[[n [Hent [Htc _]]] _]].
+    - intros name Ht. destruct F1 as [Heq|[[_ Hnone]|[[n [Hent [Htc _]]] _]]].
       + left. rewrite <- Heq. exact Ht.
+      + congruence.
       + right. exists (o, e). split; [left; reflexivity|]. simpl. rewrite Htc in Ht. injection Ht as <-. exact Hent.
     - intros Hr1. destruct o.
       + destruct F4 as [_ Hrel]. left. rewrite <- Hrel. exact Hr1.
       + destruct F4 as [Hr [_ _]]. destruct (Hr Hr1) as [H1|[[_ [Hip _]]|[n [Hent _]]]].
         * left. exact H1.
         * right. exists (OpIsAuth, e). split; [left; reflexivity|]. split; [reflexivity|]. left. exact Hip.
-        * right. exists (OpIsAuth, e). split; [left; reflexivity|]. split; [reflexivity|]. right. exists n. exact Hent. }
+        * right. exists (OpIsAuth, e). split; [left; reflexivity|]. split; [reflexivity|]. right. exists n. exact Hent.
+      + destruct F4 as [_ [Hst _]]. left. rewrite Hst in Hr1. exact Hr1. }
   assert (Hrest : out = out -> Forall (fun res =>
             (forall name, tlsclient (snd (fst res)) = Some name ->
                tlsclient st = Some name \/ exists oe, In oe ((o, e) :: cs) /\ cert_entitles (snd oe) name)
@@ -736,31 +748,33 @@ Lemma check_call_sound o e st :
 Proof.
   intros Hn. destruct (call o e st) as [[out st'] lg] eqn:Ec.
   destruct (call_facts _ _ _ _ _ _ Hn Ec) as [F1 [F2 [F3 F4]]].
-  unfold check_call, obs_of; simpl.
-  set (bc := match entitled_b e with
+  assert (Hfree : o = OpFree -> check_call o e st (obs_of (out, st', lg)) = true).
+  { intros ->. destruct F4 as [-> [-> ->]]. unfold check_call, obs_of; simpl.
+    rewrite Bool.eqb_reflx, Z.eqb_refl. reflexivity. }
+  destruct o; [| |exact (Hfree eq_refl)].
+  all: unfold check_call, obs_of; simpl.
+  all: set (bc := match entitled_b e with
              | Some n => (opt_bytes_eqb (tlsclient st') (Some n) && negb (verified st) && negb (authed e st) && ran_check lg)%bool
              | None => false end).
-  assert (Hbc : by_cert e st st' lg -> bc = true) by (apply by_cert_b).
-  apply andb_true_iff. split; [apply andb_true_iff; split; [apply andb_true_iff; split|]|].
-  - destruct F1 as [Heq|[Hb Ho]].
-    + rewrite Heq, opt_bytes_eqb_refl. reflexivity.
-    + rewrite (Hbc Hb), Ho. simpl. rewrite ?orb_true_r. reflexivity.
-  - apply impl_b. intros Hr. apply ran_check_In in Hr. destruct (F2 Hr) as [Hvf Hvt]. rewrite Hvf, Hvt. reflexivity.
-  - apply impl_b. exact F3.
-  - destruct o.
-    + destruct F4 as [Hp Hrel]. apply andb_true_iff. split.
-      * apply impl_b. intros Hpos. exact (Hbc (Hp Hpos)).
-      * apply Z.eqb_eq. exact Hrel.
-    + destruct F4 as [Hr [Hf Hp]].
-      apply andb_true_iff. split; [apply andb_true_iff; split|].
-      * destruct (Z.eqb (relay st') 1) eqn:E1; [|reflexivity]. simpl.
-        apply Z.eqb_eq in E1. destruct (Hr E1) as [H1|[[H0 [Hip Ha]]|Hb]].
-        -- rewrite H1. reflexivity.
-        -- rewrite H0, Ha. replace (0 <? e_ipbl e) with true by (symmetry; apply Z.ltb_lt; exact Hip). simpl. rewrite ?orb_true_r. reflexivity.
-        -- rewrite (Hbc Hb). rewrite ?orb_true_r. reflexivity.
-      * apply impl_b. intros Hfl. apply negb_true_iff. apply Z.eqb_neq. exact (Hf Hfl).
-      * apply impl_b. intros Hpos. destruct (Hp Hpos) as [Ho Hd]. rewrite Ho. simpl.
-        destruct Hd as [Ha|H1]; [rewrite Ha; reflexivity|]. rewrite H1. simpl. rewrite ?orb_true_r. reflexivity.
+  all: assert (Hbc : by_cert e st st' lg -> bc = true) by (apply by_cert_b).
+  all: apply andb_true_iff; split; [apply andb_true_iff; split; [apply andb_true_iff; split|]|].
+  all: try (destruct F1 as [Heq|[[Hx _]|[Hb Ho]]];
+            [rewrite Heq, opt_bytes_eqb_refl; reflexivity | discriminate Hx | rewrite (Hbc Hb), Ho; simpl; rewrite ?orb_true_r; reflexivity]).
+  all: try (apply impl_b; intros Hr; apply ran_check_In in Hr; destruct (F2 Hr) as [Hvf Hvt]; rewrite Hvf, Hvt; reflexivity).
+  all: try (apply impl_b; exact F3).
+  - destruct F4 as [Hp Hrel]. apply andb_true_iff. split.
+    + apply impl_b. intros Hpos. exact (Hbc (Hp Hpos)).
+    + apply Z.eqb_eq. exact Hrel.
+  - destruct F4 as [Hr [Hf Hp]].
+    apply andb_true_iff. split; [apply andb_true_iff; split|].
+    + destruct (Z.eqb (relay st') 1) eqn:E1; [|reflexivity]. simpl.
+      apply Z.eqb_eq in E1. destruct (Hr E1) as [H1|[[H0 [Hip Ha]]|Hb]].
+      * rewrite H1. reflexivity.
+      * rewrite H0, Ha. replace (0 <? e_ipbl e) with true by (symmetry; apply Z.ltb_lt; exact Hip). simpl. rewrite ?orb_true_r. reflexivity.
+      * rewrite (Hbc Hb). rewrite ?orb_true_r. reflexivity.
+    + apply impl_b. intros Hfl. apply negb_true_iff. apply Z.eqb_neq. exact (Hf Hfl).
+    + apply impl_b. intros Hpos. destruct (Hp Hpos) as [Ho Hd]. rewrite Ho. simpl.
+      destruct Hd as [Ha|H1]; [rewrite Ha; reflexivity|]. rewrite H1. simpl. rewrite ?orb_true_r. reflexivity.
 Qed.
 
 Lemma pre_ok_Forall cs : pre_ok cs = true -> Forall (fun oe => netw_ok (snd oe)) cs.
